@@ -11,6 +11,7 @@ import witness
 
 import rules_struct as st
 import rules_struct2 as st2
+import rules_sem as sem
 import rules_pos as pos
 
 BASE_ASSUME = [
@@ -109,7 +110,7 @@ LEAK_ALL = leak("LK", (), 54, all_fns=True)
 LEAK_SCOPED = leak("R3", ("ACQ-SCOPED",), 26)
 
 prop("C01",
-     [cg.rule_L1, st.rule_L2, st.rule_L4, st.rule_E1, sig.rule_O1, sig.rule_O3, st.rule_N5, ts.rule_SD, ts2.rule_K1, cg.rule_K2, ts2.rule_R5, ts2.rule_R3key, ts2.rule_R1, ts2.rule_R7,
+     [cg.rule_L1, sem.rule_L2, st.rule_L4, st.rule_E1, sig.rule_O1, sig.rule_O3, st.rule_N5, ts.rule_SD, ts2.rule_K1, cg.rule_K2, ts2.rule_R5, ts2.rule_R3key, ts2.rule_R1, ts2.rule_R7,
       A("rule_Y1"), A("rule_Y2")],
      "Premises of the Havender/Coffman argument, each a necessary condition visible in the code: L1 every safe function that can "
      "reach a blocking raw acquisition takes the key by value (call graph); L2 sorting collections cache get_ptrs(data) sorted "
@@ -120,7 +121,7 @@ prop("C01",
      "absence of deadlock as a behaviour over all schedules and programs; progress of the retry loop (livelock).")
 
 prop("C02",
-     [ts.rule_T1, ts.rule_T2, pos.rule_P1, st2.rule_D1, st.rule_M1, st.rule_E1, st.rule_O2, ts.rule_M4, A("rule_Q3"), st.rule_M2, st.rule_DELEG, st.rule_E2, A("rule_E5"), ts2.rule_X3],
+     [ts.rule_T1, ts.rule_T2, pos.rule_P1, st2.rule_D1, st.rule_M1, st.rule_E1, st.rule_O2, ts.rule_M4, A("rule_Q3"), st.rule_M2, st.rule_DELEG, sem.rule_E2, A("rule_E5"), ts2.rule_X3],
      "T1 every guard()/data_mut()/hold construction/protected-cell access is preceded on its path by a successful acquisition of "
      "the same receiver in the matching mode (path-sensitive typestate over every safe or acquiring function, eager arguments "
      "included); T2 user closures run only while held; P1 position k of every container guard is member k; D1 guard Deref targets "
@@ -143,7 +144,7 @@ prop("C03",
      "the single-thread history enumeration itself (the rules are per-API invariants that make every history safe).")
 
 prop("C04",
-     [st.rule_E1, st.rule_E2, st.rule_DELEG, cg.rule_E3, ts2.rule_E4r, ts2.rule_R4, A("rule_E5"), A("rule_X2"), st.rule_N1N2, st.rule_N4, st.rule_N5, sig.rule_O1, sig.rule_O3],
+     [st.rule_E1, sem.rule_E2, st.rule_DELEG, cg.rule_E3, ts2.rule_E4r, ts2.rule_R4, A("rule_E5"), A("rule_X2"), sem.rule_N1, st.rule_N4, st.rule_N5, sig.rule_O1, sig.rule_O3],
      "E1 every get_ptrs is leaf/delegate/container(all members)/cached-sorted-list; E2 each collection's six RawLock ops use one "
      "list expression with mode purity and the matching ordered_* helper; wrappers delegate op-for-op; E3 no try-style function "
      "reaches a blocking acquisition (call graph); E4 scoped closure runs exactly once iff acquired and its result is returned; "
@@ -152,7 +153,7 @@ prop("C04",
      "behaviour against concurrent holders (schedules); that the raw try really never waits (lock_api contract).")
 
 prop("C05",
-     [st.rule_M1, st.rule_M2, st.rule_M5, ts.rule_M4, LEAK_ALL, st.rule_E2, ts2.rule_R1, sig.rule_A7, A("rule_Q3"), A("rule_Q4")],
+     [st.rule_M1, st.rule_M2, st.rule_M5, ts.rule_M4, LEAK_ALL, sem.rule_E2, ts2.rule_R1, sig.rule_A7, A("rule_Q3"), A("rule_Q4")],
      "M1 hold types release exactly once in their creation mode on their own lock field and are not Clone/Copy; M2 each HL op maps to "
      "one lock_api op of the same kind and mode; M4 every release (explicit, hold Drop, guard drop) hits a receiver the call holds "
      "in that mode; LK every lock a call acquires is released or owned by the returned guard at every exit; E2 mode purity of the "
@@ -175,7 +176,7 @@ prop("C14",
      thorough_rules=[W("C14", "nightly")])
 
 prop("C15",
-     [sig.rule_A1, sig.rule_A2, sig.rule_A3, sig.rule_A4, sig.rule_A6, sig.rule_A7, sig.rule_O1, sig.rule_O3, ts.rule_T1, st.rule_N1N2, st.rule_N4, W("C15")],
+     [sig.rule_A1, sig.rule_A2, sig.rule_A3, sig.rule_A4, sig.rule_A6, sig.rule_A7, sig.rule_O1, sig.rule_O3, ts.rule_T1, sem.rule_N1, st.rule_N4, W("C15")],
      "Auto-trait table of all manual Send/Sync impls against std's Mutex/RwLock bounds, higher-ranked closure data in every "
      "scoped signature, hold types borrow their lock, read holds have no mutable access, unsafe markers, no shared access into "
      "OwnedLockCollection, protected cells touched only under a hold (T1), constructors that skip the duplicate check require unsafe "
@@ -184,7 +185,7 @@ prop("C15",
      thorough_rules=[W("C15", "nightly")])
 
 prop("C07",
-     [st.rule_N1N2, st.rule_N3, st.rule_N4, st.rule_N5, st.rule_L2, st.rule_E1, sig.rule_O1, sig.rule_O3, W("C07")],
+     [sem.rule_N1, st.rule_N4, st.rule_N5, sem.rule_L2, st.rule_E1, sig.rule_O1, sig.rule_O3, W("C07")],
      "N1/N2 a collection can only be built by an unsafe constructor, under an OwnedLockable bound, or on the no-duplicates edge of "
      "a check over the collection's own complete (for sorting collections: sorted) lock list; N3 the checks compare thin addresses "
      "of all adjacent pairs of the whole slice / insert every element into the address set; N4 OwnedLockable is never implemented "
@@ -195,14 +196,14 @@ prop("C07",
      thorough_rules=[W("C07", "nightly")])
 
 prop("C08",
-     [st.rule_L2, st.rule_O2, st.rule_E1, st.rule_L4, st.rule_E2, sig.rule_O1, sig.rule_O3],
+     [sem.rule_L2, st.rule_O2, st.rule_E1, st.rule_L4, sem.rule_E2, sig.rule_O1, sig.rule_O3],
      "L2 both sort sites sort the full get_ptrs list ascending by lock address before it is cached, and the blocking ops use exactly "
      "that cached list; O2 the cached order and the data are never written after construction and no &mut to the data is handed "
      "out; E1 nested boxed/ref/retrying collections contribute their leaves, the owned collection contributes itself (L4).",
      "the run-time acquisition sequence for concrete inputs.")
 
 prop("C09",
-     [A("rule_Y1"), A("rule_Y2"), A("rule_Y3"), st.rule_E2, cg.rule_E3, st.rule_E1, sig.rule_O1, sig.rule_O3],
+     [A("rule_Y1"), A("rule_Y2"), A("rule_Y3"), sem.rule_E2, cg.rule_E3, st.rule_E1, sig.rule_O1, sig.rule_O3],
      "Y1 exactly one blocking acquisition site per pass, every other acquisition of the pass is a try; Y2 every path from a failed "
      "try back to the blocking site passes through the rollback of the prefix and the guarded release of the first lock; Y3 the "
      "held set is empty whenever the blocking site is reached (k-bounded held-set analysis: list length <= 3 quick / 4 thorough, <= 2 "
@@ -235,7 +236,7 @@ prop("C12",
      "the fault-injection runs themselves; behaviour of third-party raw locks after a panic.")
 
 prop("C13",
-     [st.rule_X1, A("rule_X2"), ts2.rule_X3, ts2.rule_R4, cg.rule_E3, st.rule_M1, st.rule_M2, st.rule_E2, A("rule_E5"), st.rule_E1],
+     [st.rule_X1, A("rule_X2"), ts2.rule_X3, ts2.rule_R4, cg.rule_E3, st.rule_M1, st.rule_M2, sem.rule_E2, A("rule_E5"), st.rule_E1],
      "X1 raw_try_* of Mutex/RwLock returns the unmodified lock_api try result on the not-killed path; X2 collection try is a "
      "conjunction in list order with rollback, in the requested mode only; R4/E5 a failed attempt holds nothing; E3 never waits; E1 the list a collection tries is exactly the leaves of all its members, whatever the nesting.",
      "the raw lock's own exactness (try succeeds iff free) and the enumeration over held patterns.")
